@@ -38,10 +38,14 @@ class FalsyVertex(Vertex):
 
 
 class EmptyLenVertex(Vertex):
-    """A vertex that is falsy through __len__."""
+    """A container-like vertex (a folder, a tree node): it has a length (0, so it is falsy) and can be iterated over
+    (it yields its - no - children).  It is still ONE vertex wherever a vertex is expected."""
 
     def __len__(self):
         return 0
+
+    def __iter__(self):
+        return iter(())
 
 
 class EqVertex(Vertex):
